@@ -240,6 +240,63 @@ def systematic_core(rng):
     return cases
 
 
+# ---- extension-function boundary stream (oracle only: the extension encodings are outside the Gallina fragment)
+EXT_DT = ["1969-12-31", "1969-12-31T23:59:59.999Z", "1969-12-30T12:00:00Z", "1970-01-01", "1970-01-02", "1970-01-01T00:00:00.001Z",
+          "1600-02-29", "0000-01-01", "9999-12-31T23:59:59.999Z", "1968-01-01T00:00:00.000+0000", "1969-12-31T00:00:00.000-0100"]
+EXT_DUR = ["0ms", "1ms", "-1ms", "1d", "-1d", "86399999ms", "-86400000ms", "1h", "-1h30m", "23h59m59s999ms"]
+EXT_DEC = ["0.0", "-0.0001", "0.0001", "1.5", "-1.5", "922337203685477.5807", "-922337203685477.5808"]
+EXT_IP = ["10.1.2.3", "10.0.0.0/8", "0.0.0.0/0", "10.0.0.0/0", "127.0.0.1", "127.0.0.0/7", "224.0.0.0/4", "::1", "::/0", "ff00::/8",
+          "1:2:3:4::/64", "255.255.255.255/32"]
+
+
+def ext_bodies(rng):
+    dt = lambda s: 'datetime("%s")' % s  # noqa: E731
+    du = lambda s: 'duration("%s")' % s  # noqa: E731
+    out = []
+    for a in EXT_DT:
+        for d in ("0ms", "1d", "86399999ms", "12h"):
+            out.append("%s.toTime() == %s" % (dt(a), du(d)))
+        out += ["%s.toTime() < %s" % (dt(a), du("1d")), "%s.toTime() >= %s" % (dt(a), du("0ms")),
+                "%s.toDate() <= %s" % (dt(a), dt(a)), "%s.toDate().offset(%s.toTime()) == %s" % (dt(a), dt(a), dt(a))]
+        for b in rng.sample(EXT_DT, 3):
+            out += ["%s.toDate() == %s" % (dt(a), dt(b)), "%s < %s" % (dt(a), dt(b)),
+                    "%s.durationSince(%s) %s %s" % (dt(a), dt(b), rng.choice(["==", "<", "<="]), du(rng.choice(EXT_DUR)))]
+        for d in rng.sample(EXT_DUR, 3):
+            out += ["%s.offset(%s).toTime() == %s" % (dt(a), du(d), du(rng.choice(["0ms", "1d", "23h", "1ms"]))),
+                    "%s.offset(%s) %s %s" % (dt(a), du(d), rng.choice(["==", "<", "<="]), dt(rng.choice(EXT_DT)))]
+    for d in EXT_DUR:
+        for f, ns in (("toDays", [0, 1, -1]), ("toHours", [0, 1, -1, -2, 24, 23]), ("toMinutes", [0, 60, -90, -91]),
+                      ("toSeconds", [0, 86399, -86400]), ("toMilliseconds", [0, 1, -1, 86399999])):
+            out.append("%s.%s() %s %d" % (du(d), f, rng.choice(["==", "<", "<="]), rng.choice(ns)))
+        out.append("%s < %s" % (du(d), du(rng.choice(EXT_DUR))))
+    for a in EXT_DEC:
+        for b in rng.sample(EXT_DEC, 3):
+            out.append('decimal("%s").%s(decimal("%s"))' % (a, rng.choice(["lessThan", "lessThanOrEqual", "greaterThan", "greaterThanOrEqual"]), b))
+    for a in EXT_IP:
+        out += ['ip("%s").isIpv4()' % a, 'ip("%s").isLoopback()' % a, 'ip("%s").isMulticast()' % a]
+        for b in rng.sample(EXT_IP, 4):
+            out.append('ip("%s").isInRange(ip("%s"))' % (a, b))
+    return out
+
+
+def ext_cases(rng):
+    bodies = ext_bodies(rng)
+    cases = []
+    for k in range(0, len(bodies), 3):
+        bs = bodies[k:k + 3]
+        q = core_request(rng)
+        ids = ["p%d" % i for i in range(len(bs))]
+        pols = [{"id": i, "text": "%s(principal, action, resource) when { %s };" % (rng.choice(["permit", "permit", "forbid"]), b)}
+                for i, b in zip(ids, bs)]
+        psets = [[i] for i in ids] + [ids]
+        pairs = [[a, b] for a in range(len(psets)) for b in range(len(psets)) if a != b and rng.random() < 0.4]
+        ppairs = [[a, b] for a in ids for b in ids if a != b]
+        cmd = {"cmd": "symcc_lit", "schema": CORE_SCHEMA, "policies": pols, "psets": psets, "pset_pairs": pairs,
+               "policy_pairs": ppairs, "request": cedar.request_json(q), "entities": cedar.entities_json(core_store(q))}
+        cases.append({"stream": "ext", "closed": True, "cmd": cmd, "features": ["ext-boundary"], "core": None})
+    return cases
+
+
 # ---- model side
 def model_cmd(case):
     c = case["core"]
@@ -376,6 +433,7 @@ def run(rep, tier, seed):
     cases = systematic_core(rng)
     n_sys = len(cases)
     cases += [core_case(rng, depth=rng.choice([2, 3, 4])) for _ in range(n_core)]
+    cases += ext_cases(rng)
     sg = None
     for i in range(n_tgen + n_dang):
         if i % 12 == 0:
